@@ -457,7 +457,7 @@ int rsch_value(int vtype, const unsigned char *v, size_t n, const char **rule) {
 }
 
 /* ------------------------------------------------------------------ generic validator */
-typedef struct { rsch_info *info; int reject, silent; } vctx;
+typedef struct { rsch_info *info; int reject, silent; const unsigned char *end; } vctx;
 
 static void note(vctx *x, int verdict, const rsch_cont *c, const char *rule, const char *el) {
 	char *dst;
@@ -512,7 +512,7 @@ static void validate(vctx *x, int cont, const unsigned char *p, size_t n, int ha
 			const char *rule;
 			int v = rsch_value(e->vtype, t.val, t.len, &rule);
 			if (v != RSCH_ACCEPT) note(x, v, c, rule, e->name);
-			if (v == RSCH_REJECT && t.len == 0) x->info->empty_values++;
+			if (v == RSCH_REJECT && t.len == 0) { x->info->empty_values++; if (t.val == x->end) x->info->empty_at_end++; }
 		}
 	}
 	if (first_present && unknown_before_known) note(x, RSCH_SILENT, c, "unknown-noncritical-before-first", NULL);
@@ -539,7 +539,7 @@ int rsch_validate(int root, const unsigned char *p, size_t n, rsch_info *info) {
 	vctx x;
 	if (!info) info = &local;
 	memset(info, 0, sizeof *info);
-	x.info = info; x.reject = 0; x.silent = 0;
+	x.info = info; x.reject = 0; x.silent = 0; x.end = p + n;
 	if (root == RR_PUBFILE) {
 		size_t ml = strlen(RSCH_PUBFILE_MAGIC);
 		if (n < ml || memcmp(p, RSCH_PUBFILE_MAGIC, ml) != 0) note(&x, RSCH_REJECT, NULL, "magic", NULL);
